@@ -189,7 +189,7 @@ def rppZero (f : Bytes) : Bool := (byteAt f 11 * 1024) / (byteAt f 14 + byteAt f
 
 theorem footerCheck_pass_iff (H : Hash) (cs : Bool) (d : Bytes) (v ob ekl cnt : Nat) :
     footerCheck H cs d = .pass v ob ekl cnt ↔
-      (13 ≤ d.length ∧ 20 + hbOf d ≤ d.length ∧ comparedOf d ≤ 8 ∧
+      (13 ≤ d.length ∧ hbOf d = 8 ∧ 20 + hbOf d ≤ d.length ∧ comparedOf d ≤ 8 ∧
        (storedOf d).take (comparedOf d) = ((H (hashedOf (footerOf d))).take 8).take (comparedOf d) ∧
        formatOk (footerOf d) = true ∧
        (cs = true → rppZero (footerOf d) = false ∧ d.length = expectedSize (footerOf d)) ∧
@@ -198,6 +198,7 @@ theorem footerCheck_pass_iff (H : Hash) (cs : Bool) (d : Bytes) (v ob ekl cnt : 
   unfold footerCheck
   simp only []
   show (if d.length < 13 then Out.io else
+        if hbOf d ≠ 8 then Out.format else
         if d.length < 20 + hbOf d then Out.io else
         if 8 < comparedOf d then Out.panic else
         if (storedOf d).take (comparedOf d) ≠ ((H (hashedOf (footerOf d))).take 8).take (comparedOf d) then
@@ -208,49 +209,79 @@ theorem footerCheck_pass_iff (H : Hash) (cs : Bool) (d : Bytes) (v ob ekl cnt : 
         Out.pass (byteAt (footerOf d) 8) (byteAt (footerOf d) 12) (byteAt (footerOf d) 14) (leNat (slice (footerOf d) 16 4))) = _ ↔ _
   by_cases h1 : d.length < 13
   · simp [h1]; omega
+  rw [if_neg h1]
+  by_cases h0' : hbOf d ≠ 8
+  · rw [if_pos h0']; simp; intro _ h; exact absurd h h0'
+  rw [if_neg h0']
+  have h0 : hbOf d = 8 := Decidable.not_not.mp h0'
+  have hR : ∀ P : Prop, (13 ≤ d.length ∧ hbOf d = 8 ∧ P) ↔ P :=
+    fun P => ⟨fun h => h.2.2, fun h => ⟨by omega, h0, h⟩⟩
+  rw [hR]
   by_cases h2 : d.length < 20 + hbOf d
-  · simp [h1, h2]; omega
+  · simp [h2]; omega
   by_cases h3 : 8 < comparedOf d
-  · simp [h1, h2, h3]; omega
+  · simp [h2, h3]; omega
   by_cases h4 : (storedOf d).take (comparedOf d) = ((H (hashedOf (footerOf d))).take 8).take (comparedOf d)
   · by_cases h5 : formatOk (footerOf d) = true
     · cases cs
-      · simp [h1, h2, h3, h4, h5]
+      · simp [h2, h3, h4, h5]
         constructor
-        · rintro ⟨rfl, rfl, rfl, rfl⟩; exact ⟨by omega, by omega, by omega, rfl, rfl, rfl, rfl⟩
-        · rintro ⟨_, _, _, rfl, rfl, rfl, rfl⟩; exact ⟨rfl, rfl, rfl, rfl⟩
+        · rintro ⟨rfl, rfl, rfl, rfl⟩; exact ⟨by omega, by omega, rfl, rfl, rfl, rfl⟩
+        · rintro ⟨_, _, rfl, rfl, rfl, rfl⟩; exact ⟨rfl, rfl, rfl, rfl⟩
       · by_cases h6 : rppZero (footerOf d) = true
-        · simp [h1, h2, h3, h4, h5, h6]
+        · simp [h2, h3, h4, h5, h6]
         · by_cases h7 : d.length = expectedSize (footerOf d)
-          · simp [h1, h2, h3, h4, h5, h6, ← h7]
+          · simp [h2, h3, h4, h5, h6, ← h7]
             constructor
-            · rintro ⟨rfl, rfl, rfl, rfl⟩; exact ⟨by omega, by omega, by omega, rfl, rfl, rfl, rfl⟩
-            · rintro ⟨_, _, _, rfl, rfl, rfl, rfl⟩; exact ⟨rfl, rfl, rfl, rfl⟩
-          · simp [h1, h2, h3, h4, h5, h6, h7]
-    · simp [h1, h2, h3, h4, h5]
-  · by_cases h8 : hbOf d < 8 <;> simp [h1, h2, h3, h4, h8]
+            · rintro ⟨rfl, rfl, rfl, rfl⟩; exact ⟨by omega, by omega, rfl, rfl, rfl, rfl⟩
+            · rintro ⟨_, _, rfl, rfl, rfl, rfl⟩; exact ⟨rfl, rfl, rfl, rfl⟩
+          · simp [h2, h3, h4, h5, h6, h7]
+    · simp [h2, h3, h4, h5]
+  · by_cases h8 : hbOf d < 8 <;> simp [h2, h3, h4, h8]
 
 theorem formatOk_hb (f : Bytes) (h : formatOk f = true) : byteAt f 15 = 8 := by
   unfold formatOk at h; simp at h; exact h.2
 
-/-- when the size byte at `End(-13)` is 8 the comparison is over all 8 stored bytes. -/
-theorem pass_full_compare (H : Hash) (cs : Bool) (d : Bytes) (v ob ekl cnt : Nat)
-    (hp : footerCheck H cs d = .pass v ob ekl cnt) (h8 : hbOf d = 8) :
-    storedOf d = (H (hashedOf (footerOf d))).take 8 ∧ (storedOf d).length = 8 := by
-  obtain ⟨a1, a2, _, a4, a5, _⟩ := (footerCheck_pass_iff H cs d v ob ekl cnt).mp hp
+/-- every accepted footer had all 8 stored hash bytes compared (since fix 6b0ee35 the size byte at
+`End(-13)` must be 8). -/
+theorem pass_full_compare' (H : Hash) (cs : Bool) (d : Bytes) (v ob ekl cnt : Nat)
+    (hp : footerCheck H cs d = .pass v ob ekl cnt) :
+    hbOf d = 8 ∧ storedOf d = (H (hashedOf (footerOf d))).take 8 ∧ (storedOf d).length = 8 := by
+  obtain ⟨a1, h8, a2, _, a4, a5, _⟩ := (footerCheck_pass_iff H cs d v ob ekl cnt).mp hp
   have hc : comparedOf d = 8 := by unfold comparedOf; rw [formatOk_hb _ a5, h8]; rfl
   have hl : (storedOf d).length = 8 := by unfold storedOf; simp [List.length_drop]; omega
   rw [hc, List.take_of_length_le (by omega), List.take_take] at a4
-  exact ⟨by simpa using a4, hl⟩
+  exact ⟨h8, by simpa using a4, hl⟩
 
-/-- the 28-byte file: 16 zero bytes, then `01 00 00 04 04 04 10 08 00 00 00 00`. -/
+/-- when the size byte at `End(-13)` is 8 the comparison is over all 8 stored bytes. -/
+theorem pass_full_compare (H : Hash) (cs : Bool) (d : Bytes) (v ob ekl cnt : Nat)
+    (hp : footerCheck H cs d = .pass v ob ekl cnt) (_h8 : hbOf d = 8) :
+    storedOf d = (H (hashedOf (footerOf d))).take 8 ∧ (storedOf d).length = 8 :=
+  (pass_full_compare' H cs d v ob ekl cnt hp).2
+
+/-- the footer stage never reaches one of its two slicing panics (fix 6b0ee35). -/
+theorem footerCheck_no_panic (H : Hash) (cs : Bool) (d : Bytes) : footerCheck H cs d ≠ .panic := by
+  by_cases h8 : byteAt d (d.length - 13) = 8
+  · unfold footerCheck
+    simp only [h8]
+    intro h
+    repeat' split at h
+    all_goals first | omega | cases h
+  · unfold footerCheck
+    simp only []
+    by_cases h1 : d.length < 13
+    · rw [if_pos h1]; intro h; cases h
+    · rw [if_neg h1, if_pos h8]; intro h; cases h
+
+/-- the 28-byte file: 16 zero bytes, then `01 00 00 04 04 04 10 08 00 00 00 00`
+(size byte at `End(-13)` = 0; accepted before fix 6b0ee35 without any hash byte compared). -/
 def witness : Bytes := List.replicate 16 0 ++ [1, 0, 0, 4, 4, 4, 16, 8, 0, 0, 0, 0]
 
-theorem witness_accepted (H : Hash) : footerCheck H true witness = .pass 1 4 16 0 := by
-  rw [footerCheck_pass_iff]
-  have hc : comparedOf witness = 0 := by decide
-  refine ⟨by decide, by decide, by decide, ?_, by decide, fun _ => ⟨by decide, by decide⟩, by decide, by decide, by decide, by decide⟩
-  rw [hc]; rfl
+theorem witness_rejected (H : Hash) (cs : Bool) : footerCheck H cs witness = .format := by
+  unfold footerCheck
+  have h1 : witness.length = 28 := by decide
+  have h2 : byteAt witness (28 - 13) = 0 := by decide
+  simp [h1, h2]
 end Aidx
 
 namespace Upd
